@@ -30,7 +30,7 @@ func (in *Interp) unop(fr *frame, instr *ssa.UnOp, x Value) Value {
 		if p == nil {
 			in.rtPanic("invalid memory address or nil pointer dereference")
 		}
-		in.noteAccess(p, false)
+		in.noteAccessDeep(p, false)
 		return copyVal(*p)
 	case token.NOT:
 		return Not(x.(*Term))
